@@ -19,11 +19,17 @@ func validateSamples(w *World, prop string, h *ssa.Function, hr *HarnessResult, 
 		return 0, nil
 	}
 	var recs []*ReplayFile
-	for i, s := range hr.Samples {
-		if i >= max {
+	for _, s := range hr.Samples {
+		if len(recs) >= max {
 			break
 		}
+		if s["__crashed_path"] != "" {
+			continue
+		}
 		recs = append(recs, &ReplayFile{Property: prop, Harness: hr.Name, Package: h.Pkg.Pkg.Path(), Label: "sample", Values: s, Tier: tier})
+	}
+	if len(recs) == 0 {
+		return 0, nil
 	}
 	path := filepath.Join(outDir, "samples-"+hr.Name+".json")
 	writeJSON(path, recs)
